@@ -77,6 +77,8 @@ package header
 //@   modifies hopByHopHeaders, whitespace, noop
 //@   noframe
 //@   ensures[fixed-hop-by-hop-list-is-the-rfc-list-plus-proxy-connection] hopList()
+// field(s, i) / nfields(s) describe a split at RUNS of blanks and tabs: the separator expression matches one or more
+//@   at call 0 of MustCompile before assert[via-fields-are-separated-by-runs-of-blanks-or-tabs] arg0 == "[\t ]+"
 
 // Connection-listed removal. tok(v, j) is the header name the j-th comma-separated part of a Connection value names.
 // strings.Split(v, ",") is described by two uninterpreted functions: the number of comma-separated parts of v and
